@@ -382,7 +382,13 @@ pub fn profile(focus: &str) -> Profile {
         }
         "C12" => {
             plans = vec!["ConcurrentImmix"];
-            snippet_pct = 6;
+            snippet_pct = 0;
+            // Concurrent marking starts when more than half the heap has been allocated since the
+            // last GC and the heap is not full: allocation volume, no forced GCs, no stress.
+            m.gc = 0;
+            m.alloc = 45;
+            m.big_pct = 25;
+            m.drop = 16;
             m.write = 34;
             m.copy_region = 5;
             m.get_referent = 3;
@@ -506,10 +512,11 @@ pub fn gen_spec(seed: u64, focus: &str, tier: &str) -> RunSpec {
     } as usize;
     let heap_mb = match focus {
         "C10" | "C09" | "C34" => *rng.pick(&[2usize, 4, 8]),
+        "C12" => *rng.pick(&[2usize, 2, 4]),
         _ => *rng.pick(&[4usize, 8, 16, 32]),
     };
     let nops = match (tier, focus) {
-        ("quick", "C34") | ("quick", "C09") => rng.range(150, 500),
+        ("quick", "C34") | ("quick", "C09") | ("quick", "C12") => rng.range(150, 500),
         ("quick", _) => rng.range(50, 250),
         (_, "C34") | (_, "C09") => rng.range(400, 2500),
         _ => rng.range(100, 600),
@@ -525,7 +532,7 @@ pub fn gen_spec(seed: u64, focus: &str, tier: &str) -> RunSpec {
         } else {
             None
         },
-        stress_factor: if rng.chance(1, 3) { Some(*rng.pick(&[4096usize, 16384, 65536, 262144, 1 << 20])) } else { None },
+        stress_factor: if focus != "C12" && rng.chance(1, 3) { Some(*rng.pick(&[4096usize, 16384, 65536, 262144, 1 << 20])) } else { None },
         nursery: if rng.chance(1, 2) { Some((1 << 20, *rng.pick(&[1usize << 20, 2 << 20, 4 << 20]))) } else { None },
         layout32: if focus == "C29" { true } else { rng.chance(1, 10) },
         no_finalizer: focus != "C06" && rng.chance(1, 20),
